@@ -28,7 +28,7 @@ func init() {
 			if tier == "quick" {
 				return 3200
 			}
-			return 16000
+			return 48000
 		},
 		Run:      runC19,
 		Required: []string{"series.unsorted", "series.empty", "series.single", "series.with_ties", "series.large_offset", "experiments", "experiments.partly_solved", "experiments.generations_reordered_in_place", "experiments.no_trials", "trials.unsolved", "trials.empty"},
